@@ -26,7 +26,7 @@ From Coq Require String.
 Import ListNotations String.StringSyntax.
 Delimit Scope string_scope with str.
 From PV Require Import Generated.Reject Generated.SkyMask Generated.MaskInterp.
-From PV Require Import C17.Model C17.ProofsDilate C17.ProofsReject C17.ProofsInterp C17.ProofsAxis C17.ProofsLines C17.ProofsCall C17.ProofsMedian C17.ProofsMedian2 C17.ProofsSky.
+From PV Require Import C17.Model C17.ProofsDilate C17.ProofsReject C17.ProofsBoth C17.ProofsInterp C17.ProofsAxis C17.ProofsLines C17.ProofsCall C17.ProofsMedian C17.ProofsMedian2 C17.ProofsSky.
 Open Scope Q_scope.
 
 (* ================================================================ dilation *)
@@ -482,7 +482,55 @@ Theorem C17_stored_pattern : forall m w b : Z, (0 <= b < w)%Z -> Z.testbit (m mo
 Proof. exact testbit_stored_pattern. Qed.
 Print Assumptions C17_stored_pattern.
 
+(* ================================================================ djs_reject: which keyword sets the units *)
+
+(* the source decides the scaling of BOTH limit blocks by `sigma is not None` (generated selectors), and estimates a
+   sigma exactly when neither keyword is supplied *)
+Theorem C17_reject_selectors : forall sg ivg : bool,
+  rej_lower_use_sigma sg ivg = sg /\ rej_upper_use_sigma sg ivg = sg /\ rej_estimates_sigma sg ivg = negb sg && negb ivg.
+Proof. exact (fun sg ivg => conj (gen_lower_use_sigma sg ivg) (conj (gen_upper_use_sigma sg ivg) (gen_estimates_sigma sg ivg))). Qed.
+Print Assumptions C17_reject_selectors.
+
+(* the call-level model (keywords as supplied, selectors from the source) is the one-scale model on the points
+   resolved by the documented rule: sigma if supplied, else 1/sqrt(invvar); with neither, only maxdev is inside *)
+Theorem C17_reject_call_resolves : forall (o : ropts) (sg ivg : bool) (qs : list point2),
+  call2_ok o sg ivg = true -> reject_model2 o sg ivg qs = reject_model o (map (resolve sg) qs).
+Proof. exact reject_model2_resolve. Qed.
+Print Assumptions C17_reject_call_resolves.
+
+Theorem C17_reject_call_model_eq_spec : forall (o : ropts) (sg ivg : bool) (qs : list point2),
+  call2_ok o sg ivg = true -> pre o (map (resolve sg) qs) -> reject_model2 o sg ivg qs = reject_spec2 o sg ivg qs.
+Proof. exact reject_model2_eq_spec2. Qed.
+Print Assumptions C17_reject_call_model_eq_spec.
+
+(* "If both sigma and invvar are set, invvar will be ignored": with sigma supplied the result depends on the points
+   and their sigma only -- not on whether invvar is supplied, nor on its values *)
+Theorem C17_reject_sigma_wins : forall (o : ropts) (ivg ivg' : bool) (qs qs' : list point2),
+  map (fun q => (q_pt q, q_sigma q)) qs = map (fun q => (q_pt q, q_sigma q)) qs' ->
+  reject_model2 o true ivg qs = reject_model2 o true ivg' qs'.
+Proof. exact reject_sigma_wins. Qed.
+Print Assumptions C17_reject_sigma_wins.
+
+(* the final products test the masks as `mask != 0` (any non-zero entry marks a good point, as documented), not by a
+   bitwise and: M's boolean p_in / p_out (entry is non-zero) is then faithful for masks of every dtype and value *)
+Theorem C17_reject_masks_by_truth : rej_masks_by_truth = true.
+Proof. exact eq_refl. Qed.
+Print Assumptions C17_reject_masks_by_truth.
+
+Theorem C17_reject_invvar_alone : forall (o : ropts) (qs : list point2),
+  reject_model2 o false true qs = reject_model o (map (fun q => with_scale (q_pt q) (Ivar (q_invvar q))) qs).
+Proof. exact reject_invvar_alone. Qed.
+Print Assumptions C17_reject_invvar_alone.
+
 (* ================================================================ non-vacuity witnesses *)
+
+(* both keywords, different: residual 3, upper 2, sigma 1 (3 > 2*1: rejected) but invvar 1/4 (3*0.5 < 2: kept by
+   the invvar rule) -- the supplied sigma decides; with invvar alone the point is kept *)
+Example C17_ex_reject_both :
+  fst (reject_model2 (mkO None (Some 2) None false 0) true true [mkP2 (mkP 3 0 (Sig 0) true true) 1 (1 # 4)]) = [false]
+  /\ fst (reject_model2 (mkO None (Some 2) None false 0) false true [mkP2 (mkP 3 0 (Sig 0) true true) 1 (1 # 4)]) = [true]
+  /\ fst (reject_spec2 (mkO None (Some 2) None false 0) true true [mkP2 (mkP 3 0 (Sig 0) true true) 1 (1 # 4)]) = [false].
+Proof. exact (conj eq_refl (conj eq_refl eq_refl)). Qed.
 
 (* grow = 1 rejects the neighbours of the one outlier; inmask keeps its own zero; qdone is false *)
 Example C17_ex_reject :
